@@ -15,9 +15,19 @@
      LegacyServer router (webServer.verifyRequestClient -> LegacyServer.VerifyClient with
        client_assertion_type jwt-bearer) -> [authorize_private_jwt_key]; a client_id form
        parameter sent along is not consulted on either router.
+     Every endpoint of both routers that takes an assertion (device authorization, code
+       exchange, refresh, revocation, introspection, jwt-bearer grant) -> [router_endpoint_auth]
+       = [auth_by (ep_auth legacy ep)] + "what is redeemed belongs to the authenticated client".
      One verifier / provider instance serving a sequence of requests -> [verify_sequence]:
        the verifier carries no state, every step is [verify_assertion] on that step alone;
        the expected audience is the issuer of THAT request ([v_issuer] per step).
+     client.SignedJWTProfileAssertion(client, aud, life, signer) (behind every helper that
+       builds AND sends an assertion: profile token sources incl. the key-file variants,
+       tokenexchange, rs introspection, rp device authorization / code exchange) and
+       oidc.NewJWTProfileAssertion + GenerateJWTProfileToken -> [helper_claims]: one clock
+       reading [tb] PER CALL, iat = floor tb, exp = iat + life; a long-lived helper instance
+       (token source, signer, relying party) called several times -> [helper_sequence]:
+       nothing is kept from one call to the next.
    Times: [now], offsets and max age in ns (Z); claim times in whole seconds, 0 = absent. *)
 From OIDC Require Import Lib C14_Sig.
 
@@ -67,6 +77,33 @@ Fixpoint lookup_client (cl : clienttable) (id : string) : option string :=
   end.
 
 Definition private_key_jwt : string := "private_key_jwt".
+
+(* endpoints of the two real routers that accept a JWT assertion (client authentication
+   with client_assertion, or the jwt-bearer grant) *)
+Inductive endpoint := EpDevice | EpCode | EpRefresh | EpRevoke | EpIntrospect | EpBearer.
+
+(* what the endpoint does with a verified assertion: take its issuer as identity (AKVerify),
+   additionally load that client (AKLookup), additionally require it to be registered for
+   private_key_jwt (AKPk = op.AuthorizePrivateJWTKey) *)
+Inductive authkind := AKVerify | AKLookup | AKPk.
+
+(* Provider router: device authorization = ClientIDFromRequest + GetClientByClientID;
+   introspection = ClientIDFromRequest; revocation = VerifyJWTAssertion in
+   ParseTokenRevocationRequest; code / refresh = AuthorizeCodeClient / AuthorizeRefreshClient
+   -> AuthorizePrivateJWTKey; jwt-bearer grant = op.JWTProfile.
+   LegacyServer router: everything behind webServer.withClient (device authorization, code,
+   refresh, revocation) = LegacyServer.VerifyClient -> AuthorizePrivateJWTKey; introspection =
+   authenticateResourceClient -> ClientJWTAuth; jwt-bearer grant = LegacyServer.JWTProfile. *)
+Definition ep_auth (legacy : bool) (ep : endpoint) : authkind :=
+  match ep with
+  | EpDevice => if legacy then AKPk else AKLookup
+  | EpCode | EpRefresh => AKPk
+  | EpRevoke => if legacy then AKPk else AKVerify
+  | EpIntrospect | EpBearer => AKVerify
+  end.
+
+Definition ep_owned (ep : endpoint) : bool :=
+  match ep with EpDevice | EpBearer => false | _ => true end.
 
 Section Assertion.
   Variable verify : keyid -> sigdesc -> bool.
@@ -127,9 +164,49 @@ Section Assertion.
                end
     end.
 
+  (* the real routers: which authentication an endpoint applies to a request that carries
+     the assertion, and - where the request redeems / names something that belongs to a
+     client (an authorization code, a refresh token, a token to revoke, a token whose
+     audience is that client) - the authenticated identity must be its owner *)
+  Definition auth_by (k : authkind) (v : vcfg) (t : keytable) (cl : clienttable) (now : Z)
+      (tok : token claims) : res string :=
+    match k with
+    | AKVerify => jwt_profile_grant v t now tok
+    | AKLookup => provider_router_auth v t cl now tok
+    | AKPk => authorize_private_jwt_key v t cl now tok
+    end.
+
+  Definition router_endpoint_auth (legacy : bool) (ep : endpoint) (owner : string) (v : vcfg)
+      (t : keytable) (cl : clienttable) (now : Z) (tok : token claims) : res string :=
+    match auth_by (ep_auth legacy ep) v t cl now tok with
+    | Err e => Err e
+    | Ok id => if ep_owned ep && negb (String.eqb id owner) then Err EOther else Ok id
+    end.
+
   (* a sequence of requests served by ONE verifier / provider: (request issuer and config,
      clock, assertion) per step *)
   Definition verify_sequence (t : keytable) (steps : list (vcfg * Z * token claims))
       : list (res claims) :=
     map (fun s => verify_assertion (fst (fst s)) t (snd (fst s)) (snd s)) steps.
 End Assertion.
+
+(* ------------------------------------------------------------------ *)
+(* The library's client helpers (the producing side of the interop clause). *)
+
+(* one call of a helper: the clock bracket [h_t0, h_t1] (ns) around the call that
+   produced the assertion, and the lifetime (s) the helper asks for (1 h everywhere) *)
+Record hcall := mkH { h_t0 : Z; h_t1 : Z; h_life : Z }.
+
+(* the claims a helper call writes when its time.Now() read [tb] (ns) *)
+Definition helper_claims (client : string) (auds : list string) (life tb : Z) : claims :=
+  mkClaims client client auds (tb / second) (tb / second + life).
+
+Definition helper_token (client : string) (auds : list string) (life : Z) (alg kid : string)
+    (key : keyid) (tb : Z) : token claims :=
+  TJws (mkSig true alg kid key true) (helper_claims client auds life tb).
+
+(* ONE helper instance called at the clock readings [tbs]: every call signs a new
+   assertion for its own clock reading *)
+Definition helper_sequence (client : string) (auds : list string) (life : Z) (alg kid : string)
+    (key : keyid) (tbs : list Z) : list (token claims) :=
+  map (helper_token client auds life alg kid key) tbs.
